@@ -760,6 +760,42 @@ func frOneLine(n ast.Node) string {
 	return strings.ReplaceAll(strings.ReplaceAll(s, "(*", "( *"), "*)", "* )")
 }
 
+// the expression on one line with every LOCAL name (parameter, receiver, local variable) written `_` and redundant parentheses
+// dropped: renaming a local or parenthesising an operand leaves the inventory unchanged
+func frCanonLocals(x ast.Expr, sc *frScope) string {
+	type saved struct {
+		id   *ast.Ident
+		name string
+	}
+	var sv []saved
+	sels := map[*ast.Ident]bool{}
+	ast.Inspect(x, func(n ast.Node) bool {
+		if se, ok := n.(*ast.SelectorExpr); ok {
+			sels[se.Sel] = true
+		}
+		return true
+	})
+	ast.Inspect(x, func(n ast.Node) bool {
+		if id, ok := n.(*ast.Ident); ok && !sels[id] && sc.lookup(id.Name) != nil {
+			sv = append(sv, saved{id, id.Name})
+			id.Name = "_"
+		}
+		return true
+	})
+	s := frOneLine(x)
+	for _, e := range sv {
+		e.id.Name = e.name
+	}
+	for strings.Contains(s, "((") && strings.Contains(s, "))") {
+		t := strings.Replace(strings.Replace(s, "((", "(", 1), "))", ")", 1)
+		if t == s {
+			break
+		}
+		s = t
+	}
+	return s
+}
+
 func (c *frCtx) emit(kind string, target ast.Expr, class string) {
 	*c.writes = append(*c.writes, frWrite{c.fn, kind, frOneLine(target), class})
 }
@@ -1106,7 +1142,7 @@ func (c *frCtx) stmt(s ast.Stmt, sc *frScope) {
 		if cls == "RSeq" {
 			*c.seqs++
 		} else {
-			*c.ranges = append(*c.ranges, frRange{c.fn, frOneLine(v.X), cls})
+			*c.ranges = append(*c.ranges, frRange{c.fn, frCanonLocals(v.X, sc), cls})
 		}
 		in := frNewScope(sc)
 		p := c.provOf(v.X, sc)
